@@ -9,7 +9,7 @@ import re
 from .. import mir
 from ..common import Instance, norm_id
 
-DOC = re.compile(r"[Pp]anics? (if|when|on|in case)[^\n.]*")
+DOC = re.compile(r"[Pp]anics? (if|when|on|in case)[^\n.]*|[^\n.]*\b(will|function will|otherwise) panic\b[^\n.]*")
 PANIC_SEGS = ("expect", "unwrap", "expect_failed", "unwrap_failed")
 
 
